@@ -122,8 +122,48 @@ func (g *scopeGen) block(t *rapid.T, depth int) *ast.Node {
 	inner := g.child()
 	n := rapid.IntRange(1, 4).Draw(t, "stmts")
 	var exprs []*ast.Node
+	var obs []string
 	for i := 0; i < n; i++ {
-		switch rapid.IntRange(0, 5).Draw(t, "stmt") {
+		switch rapid.IntRange(0, 8).Draw(t, "stmt") {
+		case 6: // an inner block whose only assignment is nested in a conditional / array / call argument: still a scope of its own
+			v := rapid.SampledFrom([]string{"x", "y", "z"}).Draw(t, "nvar")
+			nested := assign(v, inner.value(t, 0))
+			var holder *ast.Node
+			switch rapid.IntRange(0, 3).Draw(t, "holder") {
+			case 0:
+				holder = ast.N(ast.Cond, ast.BoolN(true), nested, ast.NumN(0))
+			case 1:
+				holder = ast.ArrN(nested, ast.VarN(v))
+			case 2:
+				holder = ast.CallN("string", nested)
+			default:
+				holder = ast.N(ast.Cond, ast.BinN("=", ast.VarN(v), ast.VarN(v)), nested, ast.StrN("else"))
+			}
+			exprs = append(exprs, ast.BlockN(holder))
+			// the enclosing block's binding, if any, is what is read here; the
+			// observation is kept in a variable and becomes part of the block's value
+			*g.nfn++
+			o := fmt.Sprintf("obs%d", *g.nfn)
+			exprs = append(exprs, assign(o, ast.ArrN(ast.StrN("after-inner-block"), ast.VarN(v))))
+			obs = append(obs, o)
+		case 7: // a closure produced below the block that binds the variable, called before and after a rebind
+			*g.nfn++
+			v := rapid.SampledFrom([]string{"x", "y", "z"}).Draw(t, "cvar")
+			mk, get, before := fmt.Sprintf("mk%d", *g.nfn), fmt.Sprintf("get%d", *g.nfn), fmt.Sprintf("before%d", *g.nfn)
+			exprs = append(exprs, assign(v, inner.value(t, 0)))
+			var factory *ast.Node
+			if rapid.Bool().Draw(t, "viaBlock") {
+				factory = ast.BlockN(ast.NumN(0), ast.LambdaN(nil, "", ast.VarN(v))) // a lambda produced by an inner block
+				exprs = append(exprs, assign(get, factory))
+			} else {
+				factory = ast.LambdaN(nil, "", ast.LambdaN(nil, "", ast.VarN(v))) // a lambda returned from a lambda call
+				exprs = append(exprs, assign(mk, factory), assign(get, ast.CallE(ast.VarN(mk))))
+			}
+			o := fmt.Sprintf("obs%d", *g.nfn)
+			exprs = append(exprs, assign(before, ast.CallE(ast.VarN(get))), assign(v, inner.value(t, 0)),
+				assign(o, ast.ArrN(ast.StrN("closure"), ast.VarN(before), ast.CallE(ast.VarN(get)), ast.VarN(v))))
+			obs = append(obs, o)
+			inner.data = append(inner.data, v)
 		case 0, 1, 2: // bind or rebind a data variable
 			v := rapid.SampledFrom([]string{"x", "y", "z"}).Draw(t, "dvar")
 			exprs = append(exprs, assign(v, inner.value(t, depth)))
@@ -144,7 +184,16 @@ func (g *scopeGen) block(t *rapid.T, depth int) *ast.Node {
 			exprs = append(exprs, inner.value(t, depth))
 		}
 	}
-	exprs = append(exprs, inner.value(t, depth))
+	last := inner.value(t, depth)
+	if len(obs) > 0 {
+		// what the statements above observed is part of the block's value
+		items := []*ast.Node{}
+		for _, o := range obs {
+			items = append(items, ast.VarN(o))
+		}
+		last = ast.N(ast.Obj, ast.StrN("observed"), ast.ArrN(items...), ast.StrN("value"), last)
+	}
+	exprs = append(exprs, last)
 	return ast.BlockN(exprs...)
 }
 
